@@ -422,6 +422,11 @@ fn solve_generic_multi(
                 [1.0; 2],
                 &payoffs,
             );
+            // the frontier and its payoffs belong to this iteration only: nodes left in `work`
+            // carry this iteration's reach probabilities, and cached payoffs are stale as soon as
+            // the strategies change
+            work.clear();
+            payoffs.clear();
             chance_infosets.iter_mut().for_each(ChanceRecurse::advance);
             for (reg, infos) in regs.iter_mut().zip(player_infosets.iter_mut()) {
                 *reg = infos.iter_mut().map(|info| info.advance(it, params)).sum();
